@@ -58,7 +58,9 @@ def cell_eq(exp, act):
         if act is None:
             return False
         try:
-            return num_eq(exp[1], float(act))
+            # the text of a float: its digits may be spelled differently (1e+20 / 100000000000000000000.0), but it is never the
+            # numeral of an integer ("3" for 3.0 is the text of an Int)
+            return num_eq(exp[1], float(act)) and (not isinstance(act, str) or any(ch in act for ch in ".eEn"))
         except (TypeError, ValueError):
             return False
     if isinstance(exp, tuple) and len(exp) == 2 and exp[0] == "dtstr":
